@@ -1076,6 +1076,70 @@ def impl_e2e_json(a):
     return outcome(oracle_json(a), json_region(a["docs"]))
 
 
+def gen_fields(rng, tier):
+    for docs in HAND_OK_XML:
+        yield e2e_xml_args(docs)
+    for docs in WITNESS_XML.values():
+        yield e2e_xml_args(docs)
+    for i in range(n_cases(tier, 120, 2500)):
+        yield e2e_xml_args(clean_xml_docs(rng, hetero=0.3 if i % 4 == 3 else 0.0))
+
+
+def impl_fields(a):
+    """the fields of the classes the real pipeline generates from the samples, as the dataclasses declare them"""
+    import dataclasses
+
+    from xsdata.formats.dataclass.context import XmlContext
+
+    g = CG.run_pipeline({f"s{i}.xml": t for i, t in enumerate(a["docs"])})
+    try:
+        if g.error is not None:
+            return err("GEN:" + type(g.error).__name__)
+        ctx = XmlContext()
+        out = {}
+        for cls in g.classes().values():
+            if not dataclasses.is_dataclass(cls):
+                continue
+            fields = []
+            for f in dataclasses.fields(cls):
+                md = f.metadata
+                is_list = f.default_factory is not dataclasses.MISSING
+                fields.append({
+                    "tag": md.get("type") or "SimpleType", "name": md.get("name", f.name), "list": is_list,
+                    "default": is_list or f.default is not dataclasses.MISSING,
+                    "nillable": bool(md.get("nillable", False)), "min": md.get("min_occurs"), "max": md.get("max_occurs"),
+                    "seq": md.get("sequence"),
+                })
+            out[ctx.build(cls).qname] = fields
+        return ok(out)
+    finally:
+        g.close()
+
+
+def compare_fields(mo, io, a):
+    """every non-mixed class the model reduces the samples to is generated with exactly the predicted fields"""
+    if not (isinstance(mo, dict) and "ok" in mo and isinstance(io, dict) and "ok" in io):
+        return mo == io
+    for c in mo["ok"]:
+        if c["fields"] is None:
+            continue
+        if io["ok"].get(c["qname"]) != c["fields"]:
+            return False
+    return True
+
+
+def classify_fields(a, o):
+    if not (isinstance(o, dict) and "ok" in o):
+        return str(o)
+    fs = [f for c in o["ok"].values() for f in c]
+    flags = []
+    for k, t in (("list", lambda f: f["list"]), ("seq", lambda f: f["seq"]), ("nillable", lambda f: f["nillable"]),
+                 ("optional", lambda f: f["default"] and not f["list"]), ("min", lambda f: f["min"]), ("wild", lambda f: f["tag"] == "Wildcard")):
+        if any(t(f) for f in fs):
+            flags.append(k)
+    return "+".join(flags) or "plain"
+
+
 def compare_e2e(mo, io, a):
     """the model's own verdict (every mapped occurrence is admitted by the reduced classes) must be
     `accepted`; the real pipeline must accept the samples or fail inside a listed defect region"""
@@ -1100,6 +1164,9 @@ CORRS = [
     Corr("smp.reduce", gen_reduce, impl_reduce, classify=classify_classes, describe="ClassUtils.reduce_classes on constructed classes (also malformed)"),
     Corr("smp.xml_docs", gen_xml_docs, impl_xml_docs, classify=classify_classes, describe="process_xml_documents core: map every document, reduce_classes"),
     Corr("smp.json_docs", gen_json_docs, impl_json_docs, classify=classify_classes, describe="process_json_documents core"),
+    Corr("smp.fields", gen_fields, impl_fields, compare=compare_fields, classify=classify_fields,
+         describe="the fields of the generated dataclasses (kind, name, list, default, nillable, min/max_occurs, sequence) vs the model: "
+                  "map + reduce + CalculateAttributePaths + ProcessAttributeTypes(nillable) + ResetAttributeSequences + ResetAttributeSequenceNumbers + asdict"),
     Corr("smp.e2e_xml", gen_e2e_xml, impl_e2e_xml, compare=compare_e2e, classify=classify_e2e,
          describe="whole real pipeline + stand-in renderer on samples of a hidden regular model: strict parse and re-serialisation of every sample; the model side evaluates merged_bounds_sound on the same samples"),
     Corr("smp.e2e_json", gen_e2e_json, impl_e2e_json, compare=compare_e2e, classify=classify_e2e, describe="the same for JSON samples"),
